@@ -1,6 +1,7 @@
 package props
 
 import (
+	"hash/crc32"
 	"testing"
 
 	"verif/ref"
@@ -10,6 +11,14 @@ import (
 func TestSelfPlumbing(t *testing.T) {
 	if H("a", 1) == H("a", 2) {
 		t.Fatal("hash")
+	}
+}
+
+func TestSelfCRCTwin(t *testing.T) {
+	a := []byte("ID-IJ0CHWGYCB / payload")
+	b := crcTwin(a, 3)
+	if len(b) != len(a) || string(a) == string(b) || crc32.ChecksumIEEE(a) != crc32.ChecksumIEEE(b) {
+		t.Fatalf("crcTwin broken: %q %q", a, b)
 	}
 }
 
